@@ -1,5 +1,6 @@
 import HT.Base
 import HT.Model.Auth
+import HT.Model.Path
 /-!
 # Sessions of one service object
 
@@ -103,7 +104,36 @@ def ldapStep (creds : List String) (slot : Option Unit) (st : Auth.LdapSt) : LIn
 
 def ldap (creds : List String) : Svc Unit Auth.LdapSt LIn Nat := { step := ldapStep creds, init := Auth.LdapSt.init }
 
+/-! ## ftp: login state and working directory of a session -/
+
+structure FSess where
+  auth : Auth.FtpSt
+  cwd : String
+  deriving Repr, DecidableEq
+
+/-- reply code and, for PWD / a successful CWD, the directory named in the reply -/
+structure FOut where
+  code : Nat
+  dir : String
+  deriving Repr, DecidableEq
+
+/-- `dirs`: the directories that exist in the (shared, read-only here) filesystem, as working-directory paths -/
+def ftpSessStep (dirs : List String) (slot : Option Unit) (s : FSess) (i : String × String) : Option Unit × FSess × FOut :=
+  let cmd := i.1.toUpper
+  let r := Auth.ftpStep s.auth cmd i.2
+  if r.2 ≠ 0 then (slot, { s with auth := r.1 }, { code := r.2, dir := "" })
+  else if cmd = "PWD" || cmd = "XPWD" then (slot, { s with auth := r.1 }, { code := 257, dir := s.cwd })
+  else if cmd = "CWD" || cmd = "XCWD" || cmd = "CDUP" || cmd = "XCUP" then
+    let target := Path.changeDir "/r" s.cwd (if cmd = "CWD" || cmd = "XCWD" then i.2 else "..")
+    if dirs.contains target then (slot, { auth := r.1, cwd := target }, { code := 250, dir := target })
+    else (slot, { s with auth := r.1 }, { code := 550, dir := "" })
+  else (slot, { s with auth := r.1 }, { code := 0, dir := "" })
+
+def ftpSvc (dirs : List String) : Svc Unit FSess (String × String) FOut :=
+  { step := ftpSessStep dirs, init := { auth := Auth.FtpSt.init, cwd := "/" } }
+
 /-! ## line protocol
+`iso ftp <dir hex,...> <sess>:<CMD>:<param hex> ...` → per session `<code>` or `<code>/<dir hex>`
 `iso tftp <sess>:<op> ...` with op = `w:<name hex>:<mode hex>` | `r:<name>:<mode>` | `d:<blk>:<payload hex>`;
 sessions are named by their address text; the key is the address.
 `iso ldap <creds hex,..> <sess>:<op> ...` with op = `b:<dn hex>:<pw hex>` | `g` | `s`
@@ -146,6 +176,15 @@ def driver (args : List String) : String :=
     | some sched =>
       let r := runG tftp (fun (s : String) => s) (G.init tftp) sched
       showViews showTOut r.2 (sessionsOf sched)
+  | "ftp" :: dirs :: items =>
+    match items.mapM (fun it => match it.splitOn ":" with
+        | [s, c, p] => some (s, (c, strOfHex p))
+        | _ => none) with
+    | none => "bad-op"
+    | some sched =>
+      let ds := (dirs.splitOn ",").map strOfHex
+      let r := runG (ftpSvc ds) (fun (s : String) => s) (G.init (ftpSvc ds)) sched
+      showViews (fun (o : FOut) => if o.dir = "" then toString o.code else s!"{o.code}/" ++ hex o.dir.toUTF8.toList) r.2 (sessionsOf sched)
   | "ldap" :: creds :: items =>
     match items.mapM (fun it => match it.splitOn ":" with
         | s :: op => (parseLIn op).map (fun i => (s, i))
